@@ -1,4 +1,5 @@
 #![allow(dead_code, unused_imports)]
+mod c01x;
 mod c06;
 mod c07;
 mod c08;
@@ -7,6 +8,7 @@ mod c14;
 mod c15;
 mod c16;
 mod c17;
+mod c18x;
 mod c19;
 mod c20;
 mod clock;
@@ -52,8 +54,15 @@ struct Plan {
 fn plan(prop: &str, tier: &str, seed: u64) -> Plan {
     let base_assume = vec!["refdec (independent decoder), the tree model and SimDisk are trusted".to_string()];
     if let Some(p) = ENGINE_PROPS.iter().copied().find(|x| *x == prop) {
+        let mut batches = props::engine_batches(p, tier, seed);
+        if p == "C01" {
+            batches.insert(0, c01x::batch(if tier == "quick" { 2 } else { 3 }));
+        }
+        if p == "C18" {
+            batches.insert(0, c18x::batch());
+        }
         return Plan {
-            batches: props::engine_batches(p, tier, seed),
+            batches,
             level: if p == "C12" { "fault_enumeration" } else { "exploration" },
             rule: "one evaluation = one API call of a seeded multi-client history on a swarm-drawn volume; distinct = distinct abstract states (model tree shape + slot-class string of every directory + free count) reached".into(),
             exhaustive: false,
@@ -231,7 +240,7 @@ fn main() {
                 }
             }
             if rep.kind != "engine" {
-                let out = c06::replay(&rep.kind, rep.seed).or_else(|| c07::replay(&rep.kind, rep.seed)).or_else(|| c14::replay(&rep.kind, rep.seed)).or_else(|| c17::replay(&rep.kind, rep.seed)).or_else(|| c08::replay(&rep.kind, rep.seed));
+                let out = c06::replay(&rep.kind, rep.seed).or_else(|| c07::replay(&rep.kind, rep.seed)).or_else(|| c14::replay(&rep.kind, rep.seed)).or_else(|| c17::replay(&rep.kind, rep.seed)).or_else(|| c08::replay(&rep.kind, rep.seed)).or_else(|| c18x::replay(&rep.kind, rep.seed));
                 match out {
                     Some(o) => match o.violation {
                         Some((v, _)) => {
